@@ -153,7 +153,12 @@ def handle (fields : List String) : Option String :=
     | _, _ => some "err request"
   | ["c14fmt", tree] =>
     match (SExp.ofString tree).bind sexpr? with
-    | some e => some s!"src={encStr (srcText e)}\tfmt={encStr (Model.Fmt.fmtExpr e)}"
+    | some e =>
+      -- on the operator fragment the text is the rendering of `PrecU.pr fmtNp` (the object of theorem fmt_parse_roundtrip)
+      let prec := match Model.Fmt.ofSExpr? e with
+        | some t => if Model.Fmt.renderF (PrecU.pr Model.Fmt.fmtNp t) == Model.Fmt.fmtExpr e then "ok" else "bad"
+        | none => "na"
+      some s!"src={encStr (srcText e)}\tfmt={encStr (Model.Fmt.fmtExpr e)}\tprec={prec}"
     | none => some "err request"
   | ["c14lit", kind, text] =>
     -- display of a literal / identifier given as text: str | ident | alias
